@@ -134,6 +134,7 @@ struct Proc {
 	int stop_left = 0;
 	bool stop_unreported = false;
 	uint64_t sigmask = 0;            // inherited from the driver at spawn time
+	uint64_t sigign = 0;             // dispositions inherited as SIG_IGN (exec keeps ignored signals ignored)
 	uint64_t blocked_pending = 0;
 };
 
@@ -173,6 +174,8 @@ struct Kernel {
 	bool exiting = false;
 	uint64_t sigmask = 0;          // signals the driver has blocked; inherited by every child it spawns
 	bool sigchld_ign = false;      // SIGCHLD disposition of the driver
+	uint64_t sigign = 0;           // other signals the driver ignores (inherited or set by itself); children inherit them
+	bool tty_wait = false;         // some tool is blocked reading a terminal that stays open
 
 	void logf(const char *fmt, ...) {
 		char buf[2048];
@@ -367,6 +370,7 @@ bool Kernel::runnable(Proc &p) {
 		{
 			FdEnt &f = p.fds[0];
 			if (f.kind == FD_PIPER) return !pipes[f.pipe].q.empty() || refs(f.pipe, FD_PIPEW) == 0;
+			if (f.kind == FD_TTYIN && sc->stdin_stays_open && (int)p.inpos >= sc->stdin_units) { tty_wait = true; return false; }
 			return true;
 		}
 	case PH_WRITE:
@@ -579,7 +583,7 @@ int __wrap_posix_spawn_file_actions_destroy(posix_spawn_file_actions_t *fa) {
 }
 
 int __wrap_posix_spawnp(pid_t *pidp, const char *file, const posix_spawn_file_actions_t *fa, const posix_spawnattr_t *attr, char *const argv[], char *const envp[]) {
-	(void)attr; (void)envp;
+	(void)envp;
 	K->enter("spawn");
 	std::vector<std::string> av;
 	for (int i = 0; argv && argv[i] && i < 4096; i++) av.push_back(argv[i]);
@@ -640,6 +644,26 @@ int __wrap_posix_spawnp(pid_t *pidp, const char *file, const posix_spawn_file_ac
 	if (ev.out_kind == FD_PIPEW) K->pipes[ev.out_pipe].group = p.group;
 	for (auto &pl : K->sc->plans) if (pl.kind == kind && pl.occ == p.occ) { p.mode = pl.mode; p.param = pl.param; p.code = pl.mode == M_SIGSEGV ? (pl.code ? pl.code : (SIGSEGV | 0x80)) : (pl.code ? pl.code : 1); }
 	p.sigmask = K->sigmask;
+	p.sigign = K->sigign;
+	if (attr) {
+		// the attributes object is glibc's own; its accessors are pure
+		short fl = 0;
+		posix_spawnattr_getflags(attr, &fl);
+		if (fl & POSIX_SPAWN_SETSIGMASK) {
+			sigset_t m;
+			sigemptyset(&m);
+			posix_spawnattr_getsigmask(attr, &m);
+			p.sigmask = 0;
+			for (int s2 = 1; s2 < 64; s2++) if (sigismember(&m, s2) == 1) p.sigmask |= 1ULL << s2;
+		}
+		if (fl & POSIX_SPAWN_SETSIGDEF) {
+			sigset_t m;
+			sigemptyset(&m);
+			posix_spawnattr_getsigdefault(attr, &m);
+			for (int s2 = 1; s2 < 64; s2++) if (sigismember(&m, s2) == 1) p.sigign &= ~(1ULL << s2);
+		}
+		K->probe("spawn_with_attributes");
+	}
 	for (auto &sp : K->sc->stops) if (sp.kind == kind && sp.occ == p.occ) { p.stop_at = sp.at; p.stop_len = sp.duration; }
 	ev.pid = p.pid; ev.ok = true; ev.group = p.group;
 	K->spawns.push_back(ev);
@@ -717,6 +741,12 @@ int __wrap_kill(pid_t pid, int sig) {
 	if (p->stray) K->violation("C18/I5 signalled-stray", "driver signalled a child it did not spawn");
 	K->logf("[%d] kill(%d, %d) state=%d", K->step, (int)pid, sig, p->state);
 	if (p->state == ZOMBIE) { K->probe("tool_already_zombie_when_killed"); return 0; }
+	if (sig > 0 && sig < 64 && sig != SIGKILL && sig != SIGSTOP && (p->sigign >> sig & 1)) {
+		// the tool was started with this signal ignored (inherited through posix_spawn without attributes) and, like
+		// every ordinary tool, does not install a handler for it: the signal is discarded
+		K->probe("signal_sent_to_child_that_inherited_it_ignored");
+		return 0;
+	}
 	if (sig > 0 && sig < 64 && sig != SIGKILL && sig != SIGSTOP && (p->sigmask >> sig & 1)) {
 		// the tool inherited a signal mask that blocks this signal (posix_spawn without attributes keeps the
 		// caller's mask) and, like every ordinary tool, never unblocks it: the signal stays pending for ever
@@ -756,8 +786,10 @@ int __wrap_pthread_sigmask(int how, const sigset_t *set, sigset_t *old) {
 int __wrap_sigaction(int sig, const struct sigaction *act, struct sigaction *old) {
 	if (!IN_DRIVER) return __real_sigaction(sig, act, old);
 	K->enter("sigaction");
-	if (old) { memset(old, 0, sizeof *old); old->sa_handler = sig == SIGCHLD && K->sigchld_ign ? SIG_IGN : SIG_DFL; }
+	bool ign = sig == SIGCHLD ? K->sigchld_ign : (sig > 0 && sig < 64 && (K->sigign >> sig & 1));
+	if (old) { memset(old, 0, sizeof *old); old->sa_handler = ign ? SIG_IGN : SIG_DFL; }
 	if (act && sig == SIGCHLD) K->sigchld_ign = act->sa_handler == SIG_IGN;
+	else if (act && sig > 0 && sig < 64) { if (act->sa_handler == SIG_IGN) K->sigign |= 1ULL << sig; else K->sigign &= ~(1ULL << sig); }
 	K->logf("[%d] sigaction(%d)", K->step, sig);
 	return 0;
 }
@@ -771,8 +803,10 @@ sighandler_fn __wrap___sysv_signal(int sig, sighandler_fn h) {
 sighandler_fn __wrap_signal(int sig, sighandler_fn h) {
 	if (!IN_DRIVER) return __real_signal(sig, h);
 	K->enter("signal");
-	sighandler_fn prev = sig == SIGCHLD && K->sigchld_ign ? SIG_IGN : SIG_DFL;
+	bool ign = sig == SIGCHLD ? K->sigchld_ign : (sig > 0 && sig < 64 && (K->sigign >> sig & 1));
+	sighandler_fn prev = ign ? SIG_IGN : SIG_DFL;
 	if (sig == SIGCHLD) K->sigchld_ign = h == SIG_IGN;
+	else if (sig > 0 && sig < 64) { if (h == SIG_IGN) K->sigign |= 1ULL << sig; else K->sigign &= ~(1ULL << sig); }
 	K->logf("[%d] signal(%d)", K->step, sig);
 	return prev;
 }
@@ -923,6 +957,8 @@ RunResult simulate(const Scenario &sc) {
 	drv.pid = 1;
 	if (!sc.stdin_closed) drv.fds[0] = FdEnt{FD_TTYIN, -1, false};
 	K->sigchld_ign = sc.sigchld_ignored;
+	if (sc.sigterm_inherited == 1) K->sigign |= 1ULL << SIGTERM;
+	if (sc.sigterm_inherited == 2) K->sigmask |= 1ULL << SIGTERM;
 	drv.fds[1] = FdEnt{FD_TTYOUT, -1, false};
 	drv.fds[2] = FdEnt{FD_TTYERR, -1, false};
 	K->procs.push_back(drv);
@@ -997,7 +1033,11 @@ RunResult simulate(const Scenario &sc) {
 	for (auto &f : K->fired) if (f == "fault:pipe" || f == "fault:fcntl" || f == "fault:fa_init" || f == "fault:fa_adddup2") pipeline_failure = true;
 	bool any_failure = any_tool_failure || pipeline_failure || link_failure;
 
-	if (K->hang) {
+	if (K->hang && K->tty_wait && !any_failure && !K->failure_seen_by_driver) {
+		// a tool is waiting for somebody to type on a terminal that stays open and nothing has failed: the driver
+		// waits with it, rightly, for as long as it takes - not a hang, and nothing further to judge in this run
+		K->probe("run_ended_waiting_for_terminal_input");
+	} else if (K->hang) {
 		(void)nodrain;
 		viol("C18/I6 hang", K->hang_why);
 	} else if (ex.usage) {
